@@ -4,44 +4,42 @@ import (
 	"bufio"
 	"fmt"
 	"io"
+	"os"
 	"os/exec"
 	"strings"
 	"sync"
 	"time"
 )
 
-// Solver drives one persistent SMT solver process. The assertion stack of the
-// process is kept aligned with the path condition of the state being explored: a
-// query re-uses the common prefix and pushes only the difference.
-type Solver struct {
+// proc is one persistent SMT solver process whose assertion stack is kept aligned with
+// the path condition being explored: a query re-uses the common prefix and pushes only
+// the difference.
+type proc struct {
+	kind     string // z3 | cvc5
+	abstract bool
 	cmd      *exec.Cmd
 	in       *bufio.Writer
 	inRaw    io.WriteCloser
 	out      *bufio.Reader
 	stack    []string
 	declared map[string]bool
-	cache    map[string]string
-	Queries  int
-	CacheHit int
-	Sat      int
-	Unsat    int
-	Unknown  int
-	Errors   []string
-	Dur      time.Duration
-	Name     string
-	TimeoutMs int
 	dead     bool
+	dump     *os.File
+	Errors   []string
+	timeout  int
+	curTO    int
 }
 
-var solverBin = "z3"
+var dumpN int
+var dumpMu sync.Mutex
 
-func NewSolver(timeoutMs int) *Solver {
+func newProc(kind string, abstract bool, timeoutMs int) *proc {
 	var cmd *exec.Cmd
-	switch solverBin {
+	switch kind {
 	case "cvc5":
 		cmd = exec.Command("cvc5", "--incremental", "--strings-exp", "--produce-models", "--lang=smt2", fmt.Sprintf("--tlimit-per=%d", timeoutMs))
 	default:
-		cmd = exec.Command(solverBin, "-in", fmt.Sprintf("-t:%d", timeoutMs))
+		cmd = exec.Command(kind, "-in", fmt.Sprintf("-t:%d", timeoutMs))
 	}
 	in, _ := cmd.StdinPipe()
 	outp, _ := cmd.StdoutPipe()
@@ -49,141 +47,135 @@ func NewSolver(timeoutMs int) *Solver {
 	if err := cmd.Start(); err != nil {
 		panic(err)
 	}
-	s := &Solver{cmd: cmd, inRaw: in, in: bufio.NewWriterSize(in, 1<<16), out: bufio.NewReader(outp), declared: map[string]bool{}, cache: map[string]string{}, Name: solverBin, TimeoutMs: timeoutMs}
-	if solverBin == "cvc5" {
-		s.send("(set-logic ALL)\n")
-	} else {
-		s.send("(set-option :global-declarations true)\n")
+	p := &proc{kind: kind, abstract: abstract, cmd: cmd, inRaw: in, in: bufio.NewWriterSize(in, 1<<16), out: bufio.NewReader(outp), declared: map[string]bool{}, timeout: timeoutMs, curTO: timeoutMs}
+	if d := os.Getenv("VERIF_DUMP_SMT"); d != "" {
+		dumpMu.Lock()
+		dumpN++
+		p.dump, _ = os.Create(fmt.Sprintf("%s.%d.smt2", d, dumpN))
+		dumpMu.Unlock()
 	}
-	return s
+	if kind == "cvc5" {
+		p.send("(set-logic ALL)\n")
+	} else {
+		p.send("(set-option :global-declarations true)\n")
+	}
+	if abstract {
+		p.send(absPrelude)
+	}
+	return p
 }
 
-func (s *Solver) send(x string) { s.in.WriteString(x) }
-
-func (s *Solver) Close() {
-	s.in.Flush()
-	s.inRaw.Close()
-	s.cmd.Process.Kill()
-	s.cmd.Wait()
+func (p *proc) send(x string) {
+	p.in.WriteString(x)
+	if p.dump != nil {
+		p.dump.WriteString(x)
+	}
 }
 
-// VarDecl is a solver-level declaration carried by states (so that any worker's
-// solver can declare what a state created elsewhere mentions).
-type VarDecl struct {
-	Name string
-	Decl string // full SMT command
+func (p *proc) close() {
+	p.in.Flush()
+	p.inRaw.Close()
+	p.cmd.Process.Kill()
+	p.cmd.Wait()
 }
 
-func (s *Solver) ensure(decls []VarDecl) {
+func (p *proc) tr(t string) string {
+	if p.abstract {
+		return abstractSMT(t)
+	}
+	return t
+}
+
+func (p *proc) ensure(decls []VarDecl) {
 	for _, d := range decls {
-		if !s.declared[d.Name] {
-			s.declared[d.Name] = true
-			if solverBin == "cvc5" && len(s.stack) > 0 {
-				// cvc5 has no global declarations: re-sync from scratch
-				s.send(fmt.Sprintf("(pop %d)\n", len(s.stack)))
-				s.stack = s.stack[:0]
+		if !p.declared[d.Name] {
+			p.declared[d.Name] = true
+			if p.kind == "cvc5" && len(p.stack) > 0 {
+				// cvc5 has no global declarations: declare at level 0
+				p.send(fmt.Sprintf("(pop %d)\n", len(p.stack)))
+				p.stack = p.stack[:0]
 			}
-			s.send(d.Decl + "\n")
+			p.send(p.tr(d.Decl) + "\n")
 		}
 	}
 }
 
-func (s *Solver) sync(pc []string) {
+func (p *proc) sync(pc []string) {
 	k := 0
-	for k < len(pc) && k < len(s.stack) && pc[k] == s.stack[k] {
+	for k < len(pc) && k < len(p.stack) && pc[k] == p.stack[k] {
 		k++
 	}
-	if n := len(s.stack) - k; n > 0 {
-		s.send(fmt.Sprintf("(pop %d)\n", n))
-		s.stack = s.stack[:k]
+	if n := len(p.stack) - k; n > 0 {
+		p.send(fmt.Sprintf("(pop %d)\n", n))
+		p.stack = p.stack[:k]
 	}
 	for _, c := range pc[k:] {
-		s.send("(push)\n(assert " + c + ")\n")
-		s.stack = append(s.stack, c)
+		p.send("(push 1)\n(assert " + p.tr(c) + ")\n")
+		p.stack = append(p.stack, c)
 	}
 }
 
-func (s *Solver) readLine() string {
-	s.in.Flush()
-	line, err := s.out.ReadString('\n')
+func (p *proc) readLine() string {
+	p.in.Flush()
+	line, err := p.out.ReadString('\n')
 	if err != nil {
-		s.dead = true
+		p.dead = true
 		return "unknown:solver died"
 	}
 	return strings.TrimSpace(line)
 }
 
-// Check decides pc ∧ extra. wantVals: terms to evaluate when sat.
-func (s *Solver) Check(decls []VarDecl, pc []string, extra []string, wantVals []string) (string, map[string]string) {
-	t0 := time.Now()
-	defer func() { s.Dur += time.Since(t0) }()
-	if s.dead {
+func (p *proc) check(decls []VarDecl, pc, extra, wantVals []string, timeoutMs int) (string, map[string]string) {
+	if p.dead {
 		return "unknown:solver died", nil
 	}
-	ck := ""
-	if len(wantVals) == 0 {
-		ck = strings.Join(pc, "\x00") + "\x01" + strings.Join(extra, "\x00")
-		if r, ok := s.cache[ck]; ok {
-			s.CacheHit++
-			return r, nil
-		}
+	p.ensure(decls)
+	p.sync(pc)
+	if p.kind != "cvc5" && timeoutMs != p.curTO {
+		p.send(fmt.Sprintf("(set-option :timeout %d)\n", timeoutMs))
+		p.curTO = timeoutMs
 	}
-	s.Queries++
-	s.ensure(decls)
-	s.sync(pc)
-	s.send("(push)\n")
+	p.send("(push 1)\n")
 	for _, c := range extra {
-		s.send("(assert " + c + ")\n")
+		p.send("(assert " + p.tr(c) + ")\n")
 	}
-	s.send("(check-sat)\n")
-	res := s.readLine()
-	for strings.HasPrefix(res, "(error") || res == "" || res == "unsupported" {
+	p.send("(check-sat)\n")
+	res := p.readLine()
+	for res == "" || res == "unsupported" || strings.HasPrefix(res, "(error") {
 		if strings.HasPrefix(res, "(error") {
-			s.Errors = append(s.Errors, res)
-			// an error invalidates the verdict; drain the verdict line that follows
-			nxt := s.readLine()
+			p.Errors = append(p.Errors, res)
+			nxt := p.readLine()
 			res = "unknown:" + res + " / " + nxt
 			break
 		}
-		res = s.readLine()
+		res = p.readLine()
 	}
 	var vals map[string]string
 	if res == "sat" && len(wantVals) > 0 {
 		vals = map[string]string{}
 		for _, v := range wantVals {
-			s.send("(get-value (" + v + "))\n")
-			vals[v] = s.readSexp()
+			p.send("(get-value (" + p.tr(v) + "))\n")
+			vals[v] = p.readSexp()
 		}
 	}
-	s.send("(pop)\n")
-	switch {
-	case res == "sat":
-		s.Sat++
-	case res == "unsat":
-		s.Unsat++
-	default:
-		s.Unknown++
-		if !strings.HasPrefix(res, "unknown") {
-			res = "unknown:" + res
-		}
-	}
-	if ck != "" {
-		s.cache[ck] = res
+	p.send("(pop 1)\n")
+	if res != "sat" && res != "unsat" && !strings.HasPrefix(res, "unknown") {
+		res = "unknown:" + res
 	}
 	return res, vals
 }
 
-// readSexp reads one balanced s-expression "((term value))" and returns value text.
-func (s *Solver) readSexp() string {
-	s.in.Flush()
+// readSexp reads one balanced s-expression "((term value))" and returns the value text.
+func (p *proc) readSexp() string {
+	p.in.Flush()
 	depth := 0
 	var b strings.Builder
 	inStr := false
 	started := false
 	for {
-		c, err := s.out.ReadByte()
+		c, err := p.out.ReadByte()
 		if err != nil {
-			s.dead = true
+			p.dead = true
 			return ""
 		}
 		b.WriteByte(c)
@@ -206,15 +198,108 @@ func (s *Solver) readSexp() string {
 			break
 		}
 	}
-	// consume rest of line
-	s.out.ReadString('\n')
+	p.out.ReadString('\n')
 	txt := strings.TrimSpace(b.String())
 	if strings.HasPrefix(txt, "(error") {
 		return ""
 	}
-	// strip "((" term " " value "))": value is the last top-level element of inner list
 	inner := strings.TrimSuffix(strings.TrimPrefix(txt, "(("), "))")
 	return lastSexp(inner)
+}
+
+// Solver = a fast abstract process (strings as EUF over Int) + a lazily started precise one.
+type Solver struct {
+	abs       *proc
+	prec      *proc
+	cache     map[string]string
+	Queries   int
+	PrecQ     int
+	CacheHit  int
+	Sat       int
+	Unsat     int
+	Unknown   int
+	Dur       time.Duration
+	PrecDur   time.Duration
+	TimeoutMs int
+}
+
+var solverBin = "z3"
+var preciseBin = "z3"
+
+func NewSolver(timeoutMs int) *Solver {
+	if v := os.Getenv("VERIF_SOLVER"); v != "" {
+		preciseBin = v
+	}
+	return &Solver{abs: newProc("z3", true, timeoutMs), cache: map[string]string{}, TimeoutMs: timeoutMs}
+}
+
+func (s *Solver) precise() *proc {
+	if s.prec == nil {
+		s.prec = newProc(preciseBin, false, s.TimeoutMs)
+	}
+	return s.prec
+}
+
+func (s *Solver) Close() {
+	s.abs.close()
+	if s.prec != nil {
+		s.prec.close()
+	}
+}
+
+func (s *Solver) Errors() []string {
+	e := append([]string(nil), s.abs.Errors...)
+	if s.prec != nil {
+		e = append(e, s.prec.Errors...)
+	}
+	return e
+}
+
+func (s *Solver) count(r string) {
+	switch r {
+	case "sat":
+		s.Sat++
+	case "unsat":
+		s.Unsat++
+	default:
+		s.Unknown++
+	}
+}
+
+// Feasible: can pc ∧ cond hold? Decided on the abstraction only: "unsat" there is
+// definitive; anything else keeps the path (sound: more paths, never fewer).
+func (s *Solver) Feasible(decls []VarDecl, pc []string, cond string) bool {
+	t0 := time.Now()
+	defer func() { s.Dur += time.Since(t0) }()
+	ck := strings.Join(pc, "\x00") + "\x01" + cond
+	if r, ok := s.cache[ck]; ok {
+		s.CacheHit++
+		return r != "unsat"
+	}
+	s.Queries++
+	r, _ := s.abs.check(decls, pc, []string{cond}, nil, 5000)
+	s.count(r)
+	s.cache[ck] = r
+	return r != "unsat"
+}
+
+// Check decides pc ∧ extra precisely: abstract first (unsat is definitive), then the
+// sequence-theory solver. wantVals: terms to evaluate when sat.
+func (s *Solver) Check(decls []VarDecl, pc []string, extra []string, wantVals []string) (string, map[string]string) {
+	t0 := time.Now()
+	defer func() { s.Dur += time.Since(t0) }()
+	s.Queries++
+	r, _ := s.abs.check(decls, pc, extra, nil, s.TimeoutMs)
+	if r == "unsat" {
+		s.count(r)
+		return r, nil
+	}
+	t1 := time.Now()
+	s.PrecQ++
+	r, vals := s.precise().check(decls, pc, extra, wantVals, s.TimeoutMs)
+	s.PrecDur += time.Since(t1)
+	s.count(r)
+	return r, vals
 }
 
 // lastSexp returns the last top-level s-expression of a space separated sequence.
@@ -224,7 +309,6 @@ func lastSexp(s string) string {
 		return s
 	}
 	if s[len(s)-1] == '"' {
-		// string literal: scan back to the opening quote (quotes are doubled inside)
 		i := len(s) - 2
 		for i >= 0 {
 			if s[i] == '"' {
@@ -278,4 +362,11 @@ func (p *SolverPool) CloseAll() {
 	for _, s := range p.all {
 		s.Close()
 	}
+}
+
+// VarDecl is a solver-level declaration carried by states (so that any worker's
+// solver can declare what a state created elsewhere mentions).
+type VarDecl struct {
+	Name string
+	Decl string // full SMT command
 }
